@@ -240,12 +240,12 @@ def finish(run, results, undecided=None):
             known_lines.append('KNOWN-FINDING: property=%s %s (obligation %s)' % (prop, kf['what'], b))
             obligations.remove(b)   # reported separately; never counted as discharged
             continue
-        if 'definite' not in classes:
-            undec_fail.append('%s: obligation %s not discharged (%s): %s' % (unit, b, ','.join(sorted(classes)), detail))
-            continue
         in_base = b in baseline.get(unit, [])
         witness = find_witness(run, unit, b, info, errs)
-        if not in_base and not witness:
+        if not witness and 'definite' not in classes:
+            undec_fail.append('%s: obligation %s not discharged (%s): %s' % (unit, b, ','.join(sorted(classes)), detail))
+            continue
+        if not witness and not in_base:
             undec_fail.append('%s: obligation %s fails but is not in the committed baseline and no failing input was found: %s' % (unit, b, detail))
             continue
         path = os.path.join(REPLAYS, '%s-%s.json' % (prop, re.sub(r'[^A-Za-z0-9_.-]', '_', b)))
@@ -256,8 +256,39 @@ def finish(run, results, undecided=None):
         json.dump(rep, open(path, 'w'), indent=1)
         violations.append((b, path, witness))
 
-    # extra concrete checks registered for the property run on every invocation (cheap, real code)
+    # a unit that could not be generated / processed at all: a concrete failing input still decides
+    for r in results:
+        if r['status'] != 'ok':
+            witness = find_witness(run, r['unit'], None, None, [])
+            if witness:
+                path = os.path.join(REPLAYS, '%s-%s.json' % (prop, r['unit'] + '-not-verifiable'))
+                rep = {'property': prop, 'obligation': None, 'unit': r['unit'], 'why_no_obligation': r['undecided'],
+                       'witness': witness, 'tree_hash': tree_hash()}
+                json.dump(rep, open(path, 'w'), indent=1)
+                violations.append((r['unit'] + ' (unit not verifiable: ' + r['status'] + ')', path, witness))
     undecided += undec_fail
+    # bounded stand-ins for functions that could not be brought within the verifier's reach: always run, labelled
+    # bounded, never counted as discharged; a failure is a concrete counterexample against the real code
+    bounded = []
+    for st in cfg.get('standins', []):
+        try:
+            import witness
+            binary = witness.crate_for(REPO, run.log)
+            rc, out = witness.run_one(binary, st['argv']) if binary else (None, None)
+        except Exception as e:
+            rc, out = None, {'error': repr(e)}
+        entry = {'function': st['fn'], 'why_not_verified': st['why'], 'bound': st['bound'], 'command': 'replay ' + ' '.join(st['argv']),
+                 'result': 'pass' if rc == 0 else ('fail' if rc == 1 else 'not-run'),
+                 'stats': {k: v for k, v in (out or {}).items() if not isinstance(v, (list, dict))}}
+        bounded.append(entry)
+        run.log('bounded stand-in %s: %s' % (' '.join(st['argv']), entry['result']))
+        if rc == 1:
+            path = os.path.join(REPLAYS, '%s-standin-%s.json' % (prop, '_'.join(st['argv'])))
+            w = {'battery': st['argv'], 'failing_input': (out.get('failures') or [None])[0], 'replay_argv': st['argv']}
+            json.dump({'property': prop, 'obligation': 'bounded stand-in for ' + st['fn'], 'witness': w, 'tree_hash': tree_hash()}, open(path, 'w'), indent=1)
+            violations.append(('bounded stand-in for ' + st['fn'], path, w))
+        elif rc != 0:
+            undecided.append('bounded stand-in could not run: ' + ' '.join(st['argv']))
     wall = time.time() - run.t0
     n_obl = len(obligations)
     evidence = {
@@ -271,7 +302,7 @@ def finish(run, results, undecided=None):
             'per_unit': by_unit,
             'solver_ms': solver_ms,
             'vacuity_twins': {'generated': twins_total, 'failed_as_required': twins_failed},
-            'bounded': [],
+            'bounded': bounded,
             'unclaimed_clauses': cfg.get('unclaimed', []),
             'claimed_clauses': cfg.get('claimed', []),
             'known_findings_reported': known_lines,
